@@ -183,6 +183,68 @@ def runFrom (m : Members) (ops : List Op) : Members := ops.foldl (step cfg) m
 
 def run (ops : List Op) : Members := runFrom cfg init ops
 
+/-! ### the glue: `handle_notifications` and `impl Identity for Actor`
+
+The dispatch table of `handle_notifications` and the comparison of `win_addr_conflict` are not written
+here: `tools/extract_c18.py` reads them off handlers.rs / actor.rs into `Corro/Gen/MembersGlue.lean` at
+the start of every check (and raises when an arm touches the member table in any other way than one
+leading `add_member(&payload)` / `remove_member(&payload)`).  Below is what a table means. -/
+
+/-- the variants of `foca::OwnedNotification<Actor>` (`other`: a variant this model has no name for) -/
+inductive NotifKind where
+  | memberUp | memberDown | rename | active | idle | defunct | rejoin | other
+deriving Repr, DecidableEq, Inhabited
+
+/-- what an arm of `match notification` does to `agent.members().write()` with its payload -/
+inductive MemberCall where
+  | addMember | removeMember | nothing
+deriving Repr, DecidableEq, Inhabited
+
+/-- the arm taken for a notification: the first one whose pattern names the variant (the `match` has
+no guards and no wildcard — checked by the extractor; it is exhaustive or the code does not compile) -/
+def callOf (tbl : List (NotifKind × MemberCall)) (k : NotifKind) : MemberCall :=
+  match tbl.find? (fun r => r.1 == k) with
+  | some r => r.2
+  | none => .nothing
+
+/-- one iteration of the loop of `handle_notifications` on the member table, for a notification of
+kind `k` whose payload is the actor `(id, addr, ts, cluster)` -/
+def applyNotif (tbl : List (NotifKind × MemberCall)) (m : Members) (k : NotifKind)
+    (id addr ts cluster : Nat) : Members :=
+  match callOf tbl k with
+  | .addMember => (addMember cfg m id addr ts cluster).1
+  | .removeMember => (removeMember m id ts).1
+  | .nothing => m
+
+/-- the comparison operator of `self.ts <op> adversary.ts` in `win_addr_conflict` -/
+inductive Cmp where
+  | lt | le | gt | ge | eq | ne
+deriving Repr, DecidableEq, Inhabited
+
+def Cmp.holds : Cmp → Nat → Nat → Bool
+  | .lt, a, b => decide (a < b)
+  | .le, a, b => decide (a ≤ b)
+  | .gt, a, b => decide (b < a)
+  | .ge, a, b => decide (b ≤ a)
+  | .eq, a, b => decide (a = b)
+  | .ne, a, b => decide (a ≠ b)
+
+/-- an `Actor` identity -/
+structure ActorM where
+  id : Nat
+  addr : Nat
+  ts : Nat
+  cluster : Nat
+deriving Repr, DecidableEq, Inhabited
+
+/-- `Identity::win_addr_conflict(&self, adversary)` -/
+def winAddrConflict (op : Cmp) (self adversary : ActorM) : Bool := op.holds self.ts adversary.ts
+
+/-- `Identity::renew(&self)`: `Some(Self { id: self.id, addr: self.addr, ts: <now>, cluster_id:
+self.cluster_id })` (shape checked by the extractor); `now` is the wall clock read by
+`duration_since_epoch()` -/
+def renew (self : ActorM) (now : Nat) : Option ActorM := some { self with ts := now }
+
 /-! ### the specification: fold by newest identity -/
 
 /-- What has been heard about one actor: its newest identity (highest identity timestamp seen) and
